@@ -139,7 +139,7 @@ def datasets(case):
                                 grids=case["grids"])
     else:
         left = pu.image_dataset(arr(case["left"]), disp=tuple(case["disp"]), mask=case["mask_l"], bands=case["bands"])
-    perm = case.get("perm_r")
+    perm = case.get("perm_r") if case["bands"] is not None else None
     if perm:
         right = pu.image_dataset(arr([case["right"][j] for j in perm]), disp=None, mask=case["mask_r"],
                                  bands=[case["bands"][j] for j in perm])
